@@ -109,6 +109,10 @@ class _SmallForms(ast.NodeTransformer):
         if isinstance(it, ast.Call) and isinstance(it.func, ast.Attribute) and it.func.attr == 'keys' and \
                 not it.args and not it.keywords:
             return it.func.value
+        # a snapshot that is only iterated: tuple(x) is read as list(x)
+        if isinstance(it, ast.Call) and isinstance(it.func, ast.Name) and it.func.id == 'tuple' and len(it.args) == 1 \
+                and not it.keywords:
+            return ast.copy_location(ast.Call(ast.copy_location(ast.Name('list', ast.Load()), it.func), it.args, []), it)
         return it
 
     def visit_For(self, node):
@@ -155,13 +159,10 @@ def small_forms(tree):
     return _SmallForms().visit(tree)
 
 
-def positional_calls(tree):
-    """self.m(p1=a, p2=b) / f(p1=a) -> self.m(a, b) / f(a): arguments that name the leading positional parameters of a
-    method of the same class (or of a base class in this module) or of a function of this module are read by
-    position; keywords that do not continue the positional prefix stay keywords"""
-    n = 0
-    classes = {c.name: c for c in tree.body if isinstance(c, ast.ClassDef)}
-    top = {f.name: f for f in tree.body if isinstance(f, ast.FunctionDef)}
+def signature_table(trees):
+    """{'functions': {name: [param lists]}, 'methods': {name: [param lists without the receiver]},
+        'nested': handled per function}: every definition of that name anywhere in the package"""
+    functions, methods, by_class, bases = {}, {}, {}, {}
 
     def params(fn, drop_first):
         a = fn.args
@@ -170,49 +171,118 @@ def positional_calls(tree):
         names = [x.arg for x in a.args]
         return names[1:] if drop_first else names
 
-    def method(cname, name, seen=()):
-        c = classes.get(cname)
-        if c is None or cname in seen:
-            return None
-        for m_ in c.body:
-            if isinstance(m_, ast.FunctionDef) and m_.name == name:
-                static = any(isinstance(d, ast.Name) and d.id == 'staticmethod' for d in m_.decorator_list)
-                if m_.decorator_list and not static and not any(isinstance(d, ast.Name) and d.id == 'classmethod'
-                                                                for d in m_.decorator_list):
-                    return None
-                return params(m_, not static)
-        for b in c.bases:
-            if isinstance(b, ast.Name):
-                r = method(b.id, name, seen + (cname,))
-                if r is not None:
-                    return r
-        return None
+    for tree in trees:
+        def visit(body, in_class):
+            for st in body:
+                if isinstance(st, (ast.FunctionDef, ast.AsyncFunctionDef)):
+                    static = any(isinstance(d, ast.Name) and d.id == 'staticmethod' for d in st.decorator_list)
+                    if in_class:
+                        methods.setdefault(st.name, []).append(params(st, not static))
+                        by_class.setdefault((in_class, st.name), []).append(params(st, not static))
+                    else:
+                        functions.setdefault(st.name, []).append(params(st, False))
+                elif isinstance(st, ast.ClassDef):
+                    bases.setdefault(st.name, []).extend(
+                        b.id if isinstance(b, ast.Name) else b.attr for b in st.bases
+                        if isinstance(b, (ast.Name, ast.Attribute)))
+                    visit(st.body, st.name)
+                elif isinstance(st, (ast.If, ast.Try)):
+                    for fld in ('body', 'orelse', 'finalbody'):
+                        visit(getattr(st, fld, []) or [], in_class)
+                    for h in getattr(st, 'handlers', []):
+                        visit(h.body, in_class)
+        visit(tree.body, None)
 
-    def fix(call, names):
+    def lookup(cname, mname, seen=()):
+        """the definitions of cname.mname, through the base classes of the package (by name)"""
+        if cname in seen:
+            return []
+        if (cname, mname) in by_class:
+            return by_class[(cname, mname)]
+        out = []
+        for b in bases.get(cname, []):
+            out = lookup(b, mname, seen + (cname,))
+            if out:
+                break
+        return out
+    # calling a class of the package is calling its (possibly inherited) __init__
+    for cname in bases:
+        d = lookup(cname, '__init__')
+        if d:
+            functions.setdefault(cname, []).extend(d)
+    return {'functions': functions, 'methods': methods, 'lookup': lookup}
+
+
+def positional_calls(tree, table):
+    """f(p1=a) / obj.m(p1=a, p2=b) / Base.m(self, p1=a) -> f(a) / obj.m(a, b) / Base.m(self, a): keyword arguments that
+    continue the positional prefix of the callee are read by position, when every definition of that name in the
+    package puts these parameters at these positions (so the receiver's class need not be known); a function nested in
+    the caller counts for calls of its name inside the caller"""
+    n = 0
+
+    def agreed(defs, first, kwnames):
+        """the parameter names for positions first.. as far as all definitions agree and kwnames supplies them"""
+        defs = [d for d in defs if d is not None]
+        if not defs:
+            return []
+        out = []
+        i = first
+        while True:
+            at = {d[i] if i < len(d) else None for d in defs}
+            if len(at) != 1 or None in at:
+                break
+            name = next(iter(at))
+            if name not in kwnames:
+                break
+            out.append(name)
+            i += 1
+        # a keyword that some definition has at another position makes the call ambiguous
+        for k in kwnames:
+            if k not in out and any(k in d[:first + len(out)] for d in defs):
+                return []
+        return out
+
+    def fix(call, defs, first):
         nonlocal n
-        if names is None or any(isinstance(a, ast.Starred) for a in call.args) or any(k.arg is None for k in call.keywords):
+        if any(isinstance(a, ast.Starred) for a in call.args) or any(k.arg is None for k in call.keywords):
             return
         kw = {k.arg: k for k in call.keywords}
-        moved = []
-        i = len(call.args)
-        while i < len(names) and names[i] in kw:
-            moved.append(kw[names[i]])
-            i += 1
-        if moved:
-            call.args = list(call.args) + [k.value for k in moved]
-            call.keywords = [k for k in call.keywords if k not in moved]
+        names = agreed(defs, first, set(kw))
+        if names:
+            call.args = list(call.args) + [kw[x].value for x in names]
+            call.keywords = [k for k in call.keywords if k.arg not in names]
             n += 1
 
-    for c in classes.values():
+    # calls on self / cls inside a class: that class's own (or inherited) definition decides
+    for c in [x for x in ast.walk(tree) if isinstance(x, ast.ClassDef)]:
         for node in ast.walk(c):
             if isinstance(node, ast.Call) and node.keywords and isinstance(node.func, ast.Attribute) and \
                     isinstance(node.func.value, ast.Name) and node.func.value.id in ('self', 'cls'):
-                fix(node, method(c.name, node.func.attr))
-    for node in ast.walk(tree):
-        if isinstance(node, ast.Call) and node.keywords and isinstance(node.func, ast.Name) and node.func.id in top:
-            fix(node, params(top[node.func.id], False))
-        elif isinstance(node, ast.Call) and node.keywords and isinstance(node.func, ast.Name) and node.func.id in classes:
-            fix(node, method(node.func.id, '__init__'))         # a constructor of this module
+                own = table['lookup'](c.name, node.func.attr)
+                if own:
+                    fix(node, own, len(node.args))
+    for fn in [x for x in ast.walk(tree) if isinstance(x, (ast.FunctionDef, ast.AsyncFunctionDef, ast.Module))]:
+        nested = {}
+        if not isinstance(fn, ast.Module):
+            for st in ast.walk(fn):
+                if isinstance(st, (ast.FunctionDef, ast.AsyncFunctionDef)) and st is not fn and not st.args.posonlyargs:
+                    nested.setdefault(st.name, []).append([x.arg for x in st.args.args])
+        for node in ast.walk(fn):
+            if not (isinstance(node, ast.Call) and node.keywords):
+                continue
+            f = node.func
+            if isinstance(f, ast.Name):
+                if f.id in nested:
+                    fix(node, nested[f.id], len(node.args))
+                elif f.id in table['functions'] and not isinstance(fn, ast.Module) or \
+                        (isinstance(fn, ast.Module) and f.id in table['functions']):
+                    fix(node, table['functions'][f.id], len(node.args))
+            elif isinstance(f, ast.Attribute):
+                if isinstance(f.value, ast.Name) and node.args and table['lookup'](f.value.id, f.attr):
+                    # Base.method(self, ...): that class's own definition; the receiver is the first positional argument
+                    fix(node, table['lookup'](f.value.id, f.attr), len(node.args) - 1)
+                elif f.attr in table['methods']:
+                    fix(node, table['methods'][f.attr], len(node.args))
     return n
 
 
@@ -387,9 +457,12 @@ def restore_function_names(tree, modname, ref):
             if len(cands) != 1:
                 continue
             newname = cands[0]
-            mentioned_old = any((isinstance(n, ast.Name) and n.id == old) or (isinstance(n, ast.Attribute) and n.attr == old)
-                                for n in ast.walk(tree))
-            if mentioned_old:
+            # the new name must really be new in this module (then every mention of it means the renamed function;
+            # the old name may live on as a method of another class)
+            if newname in ((ref.get('attrs') or {}).get(modname) or ()) or \
+                    newname in ((ref.get('module_names') or {}).get(modname) or ()):
+                continue
+            if prefix == '' and any(isinstance(n, ast.Name) and n.id == old for n in ast.walk(tree)):
                 continue
             new[newname].name = old
             for n in ast.walk(tree):
